@@ -436,7 +436,8 @@ func (f *DefaultFanController) calculateTargetPwm() (int, error) {
 	fan := f.fan
 	target, err := f.curve.Evaluate()
 	if err != nil {
-		ui.Fatal("Unable to calculate optimal PWM value for %s: %v", fan.GetId(), err)
+		ui.Error("Unable to calculate optimal PWM value for %s: %v", fan.GetId(), err)
+		return -1, err
 	}
 
 	// the target pwm, approaching the actual target smoothly
